@@ -182,13 +182,13 @@ func sources() []source {
 				lc := linCtors[variant%len(linCtors)]
 				ct = c12.Ctor{Default: lc.Default, Cap: lc.Cap, LF: lc.LF}
 			}
-			fresh := td.New(r, 3, ct, true)
+			fresh := td.New(r, 3, ct, c12.PoolOpt{Small: true})
 			if variant%4 == 3 {
 				ct = c12.Ctor{Default: true}
-				fresh = td.New(r, growPool, ct, false)
+				fresh = td.New(r, growPool, ct, c12.PoolOpt{})
 			}
 			return func() *cobj {
-				o := fresh()
+				o := fresh(ct)
 				co := &cobj{Type: o.Type, Ctor: ct.String(), NK: o.N, Lin: true, Pool: o.Pool,
 					Hdr: Ev{"plain": true, "set": o.Set, "none": plainNone[o.Type], "rej": o.Type == "StringSet", "ek": o.EK}}
 				for _, n := range dictPointOps {
